@@ -35,9 +35,12 @@ type c04nCase struct {
 	// Restore: after the complete stream was read, the node takes a snapshot and restarts from it;
 	// the resumes then go to a node that rebuilt its output from the snapshot's retained entries
 	// (a restarted node, or a follower that installed a snapshot: "different nodes holding the same log")
-	Restore  bool     `json:"snapshot_and_restart_before_the_resumes"`
-	Services bool     `json:"services_link"`
-	Ops      []c04nOp `json:"ops"`
+	Restore  bool `json:"snapshot_and_restart_before_the_resumes"`
+	Services bool `json:"services_link"`
+	// EndLag: where the last connection (during which the observer's own session ends) resumes,
+	// in thousandths of the stream counted back from its end: 0 = behind the last message
+	EndLag int      `json:"last_connection_resumes_this_far_back_permille"`
+	Ops    []c04nOp `json:"ops"`
 }
 
 var c04nCounter int
@@ -205,45 +208,64 @@ func c04nExecute(c *c04nCase, base string) (fail *vh.Failure, labels []string, n
 			}
 		}
 	}
-	// The end of the stream: the observer is connected (long poll behind its last message) when
-	// its own QUIT is applied. What that entry addresses to the observer (the relayed QUIT, ERROR
-	// :Closing Link) belongs to its stream like everything before.
+	// The end of the stream: the observer is connected when its own QUIT is applied — waiting
+	// behind its last message, or still behind (it resumed further back: a client that lags
+	// when its session ends). What is addressed to it up to and including that entry (the
+	// relayed QUIT, ERROR :Closing Link) belongs to its stream like everything before; it has no
+	// later connection to get it from, a session that is gone cannot be resumed.
 	if _, err := ircServer.GetSession(robust.Id{Id: who[0].Num}); err == nil {
-		lastseen := fmt.Sprintf("%d.%d", full[len(full)-1].Id.Id, full[len(full)-1].Id.Reply)
+		from := len(full) - 1 - c.EndLag*(len(full)-1)/1000
+		if from < 0 || from > len(full)-1 {
+			from = len(full) - 1
+		}
+		lastseen := fmt.Sprintf("%d.%d", full[from].Id.Id, full[from].Id.Reply)
 		type res struct {
 			msgs []streamed
 			code int
 		}
 		done := make(chan res, 1)
+		// the QUIT is posted once the node has accepted the GET (status 200 written: the session
+		// was found and the stream is being served) — not after a guessed delay, which under load
+		// let the QUIT overtake the GET, and a GET for a session that is gone is rightly refused
+		accepted := make(chan struct{})
 		go func() {
-			m, c := n.readStream(who[0], who[0].Auth, lastseen, nil, 3*time.Second)
+			m, c := n.readStreamAccepted(who[0], who[0].Auth, lastseen, nil, 20*time.Second, accepted)
 			done <- res{m, c}
 		}()
-		time.Sleep(15 * time.Millisecond)
+		<-accepted
 		if code := post(who[0], "QUIT :the end"); code == 200 {
 			quitID := robust.IdFromRaftIndex(node.LastIndex())
 			r := <-done
-			var want []streamed
+			want := append([]streamed{}, full[from+1:]...)
+			inQuit := 0
 			if batch, ok := outputStream.Get(robust.Id{Id: quitID}); ok {
 				for _, m := range batch {
 					if m.InterestingFor[who[0].Num] {
 						want = append(want, streamed{Id: m.Id, Data: m.Data})
+						inQuit++
 					}
 				}
 			}
 			lab["c04n:connected-while-own-session-ends"] = true
-			var got []streamed
-			for _, m := range r.msgs {
-				if m.Id.Id == quitID {
-					got = append(got, m)
-				}
+			if from < len(full)-1 {
+				lab["c04n:lagging-while-own-session-ends"] = true
 			}
-			if len(got) != len(want) {
-				return vh.Failf("node:last-messages-of-ending-session-missing", "the observer was connected (lastseen=%s) when its QUIT was applied as %d: that entry addresses %d messages to it (%v), the connection delivered %d of them before it was closed", lastseen, quitID, len(want), want, len(got)), keys2(lab), true
+			got := r.msgs
+			if r.code != 200 {
+				return vh.Failf("node:resume-refused", "GET messages?lastseen=%s answered %d although the session existed", lastseen, r.code), keys2(lab), true
+			}
+			if len(got) < len(want) {
+				return vh.Failf("node:last-messages-of-ending-session-missing", "the observer was connected (lastseen=%s, %d messages behind the end of its stream) when its QUIT was applied as %d: %d messages were addressed to it after lastseen (%d of them by that entry), the connection delivered %d before it was closed", lastseen, len(full)-1-from, quitID, len(want), inQuit, len(got)), keys2(lab), true
+			}
+			if len(got) > len(want) {
+				return vh.Failf("node:message-twice-after-resume", "end of stream, lastseen=%s: %d messages expected, %d received", lastseen, len(want), len(got)), keys2(lab), true
 			}
 			for j := range want {
+				if got[j].Id == want[j].Id && strings.Contains(want[j].Data, " 003 ") && strings.Contains(got[j].Data, " 003 ") {
+					continue
+				}
 				if got[j].Id != want[j].Id || got[j].Data != want[j].Data {
-					return vh.Failf("node:resumed-stream-differs", "end of stream: message #%d is %v %q, the output stream holds %v %q", j, got[j].Id, got[j].Data, want[j].Id, want[j].Data), keys2(lab), true
+					return vh.Failf("node:resumed-stream-differs", "end of stream: message #%d is %v %q, expected %v %q", j, got[j].Id, got[j].Data, want[j].Id, want[j].Data), keys2(lab), true
 				}
 			}
 		} else {
@@ -284,7 +306,8 @@ func TestVerifC04Node(t *testing.T) {
 		return
 	}
 	rapid.Check(t, func(rt *rapid.T) {
-		c := &c04nCase{Services: rapid.Bool().Draw(rt, "services"), Restore: rapid.IntRange(0, 2).Draw(rt, "restore") == 0}
+		c := &c04nCase{Services: rapid.Bool().Draw(rt, "services"), Restore: rapid.IntRange(0, 2).Draw(rt, "restore") == 0,
+			EndLag: rapid.SampledFrom([]int{0, 0, 30, 100, 300, 600, 1000}).Draw(rt, "end_lag")}
 		nops := rapid.IntRange(1, 10).Draw(rt, "nops")
 		for k := 0; k < nops; k++ {
 			// the observer does not quit: its stream is what is resumed
